@@ -116,14 +116,18 @@ theorem coreOnly_facts {s s' : Core.State} {op : Core.Op} (hnd : s.hasDQ = false
   | sendOk d k evs =>
     cases d <;> simp only [Core.step?, bq, setBq, Bool.false_eq_true, ↓reduceIte] at h <;>
       (split at h
-       · simp at h; subst h; exact ⟨rfl, rfl, rfl⟩
+       · split at h
+         · split at h
+           · simp at h; subst h; exact ⟨rfl, rfl, rfl⟩
+           · simp at h
+         · simp at h
        · simp at h)
   | sendFail d k evs =>
     simp only [Core.step?] at h
     split at h
     · simp at h; subst h; exact ⟨rfl, rfl, rfl⟩
     · simp at h
-  | giveUp d evs =>
+  | giveUp d k evs =>
     cases d <;> simp only [Core.step?, bq, setBq, hnd, Bool.not_false, Bool.not_true, Bool.false_eq_true,
       and_false, false_and, Bool.false_and, Bool.and_false, ↓reduceIte] at h <;>
       (split at h
@@ -143,6 +147,19 @@ theorem coreOnly_facts {s s' : Core.State} {op : Core.Op} (hnd : s.hasDQ = false
     · split at h
       · simp at h; subst h; exact ⟨rfl, rfl, rfl⟩
       · simp at h
+  | spawn p k =>
+    simp only [Core.step?] at h
+    split at h
+    · simp at h; subst h; exact ⟨rfl, rfl, rfl⟩
+    · simp at h
+  | addKid p k =>
+    simp only [Core.step?] at h
+    split at h
+    · simp at h; subst h; exact ⟨rfl, rfl, rfl⟩
+    · simp at h
+  | kidAck p k =>
+    simp only [Core.step?] at h
+    simp at h; subst h; exact ⟨rfl, rfl, rfl⟩
 
 /-! ### the key step: M2 enables `out e.seq`  ⇒  M1's guarded `add` is enabled and equals `addU` -/
 
